@@ -144,7 +144,7 @@ var witnesses = []struct{ name, doc, path string }{
 	{"ctx-empty-only", `<p:a xmlns:p="urn:p"><b xmlns=""><c/></b></p:a>`, "0/0"},
 	{"attr-named-xmlns", `<p:a xmlns:p="urn:p" xmlns="urn:u"><b p:xmlns="v"/></p:a>`, "-"},
 	{"xmlns-xml", `<a xmlns:xml="http://www.w3.org/XML/1998/namespace" xml:lang="en"/>`, "-"},
-	{"attr-literal-ws", "<a x=\"1\n2\t3\"/>", "-"},
+	{"attr-literal-ws+attrws", "<a x=\"1\n2\t3\"/>", "-"},
 }
 
 func runC14n(c *core.Ctx) error {
